@@ -216,3 +216,49 @@ theorem inv_run (ops : List Op) (hok : ∀ op ∈ ops, OpOk op) : Inv (run ops) 
       (inv_step hs op (hok op List.mem_cons_self))
 
 end Proofs.TmpBytes
+
+/-! ### entries ↔ bytes: the abstraction `ZodbModel/Conn.lean` uses for the same class (the temporary file
+    as a LIST OF ENTRIES, `position` = number of entries, `index` = entry numbers) is sound for the byte
+    layout -/
+namespace Proofs.TmpBytes
+open ZodbModel ZodbModel.TmpBytes
+
+/-- the bytes of a temporary file holding the entries `es` -/
+def encAll (es : List Entry) : Bytes := es.flatMap encEntry
+
+/-- byte offset of entry number `p` -/
+def offset (es : List Entry) (p : Nat) : Nat := (encAll (es.take p)).length
+
+theorem encAll_append (a b : List Entry) : encAll (a ++ b) = encAll a ++ encAll b := by
+  simp [encAll, List.flatMap_append]
+
+theorem encAll_split (es : List Entry) (p : Nat) : encAll es = encAll (es.take p) ++ encAll (es.drop p) := by
+  rw [← encAll_append, List.take_append_drop]
+
+theorem drop_offset (es : List Entry) (p : Nat) : (encAll es).drop (offset es p) = encAll (es.drop p) := by
+  rw [encAll_split es p]
+  exact List.drop_left' rfl
+
+theorem take_offset (es : List Entry) (p : Nat) : (encAll es).take (offset es p) = encAll (es.take p) := by
+  rw [encAll_split es p]
+  exact List.take_left' rfl
+
+theorem offset_le (es : List Entry) (p : Nat) : offset es p ≤ (encAll es).length := by
+  rw [encAll_split es p]; simp [offset]
+
+theorem offset_length (es : List Entry) : offset es es.length = (encAll es).length := by
+  simp [offset]
+
+theorem drop_offset_entry (es : List Entry) (p : Nat) (e : Entry) (h : es[p]? = some e) :
+    (encAll es).drop (offset es p) = encEntry e ++ encAll (es.drop (p + 1)) := by
+  rw [drop_offset]
+  have hp : p < es.length := by
+    rcases Nat.lt_or_ge p es.length with h1 | h1
+    · exact h1
+    · rw [List.getElem?_eq_none h1] at h; cases h
+  have he : es[p] = e := by
+    rw [List.getElem?_eq_getElem hp] at h; exact Option.some.inj h
+  rw [List.drop_eq_getElem_cons hp, he]
+  simp [encAll]
+
+end Proofs.TmpBytes
